@@ -5,6 +5,13 @@
         (coefficients constant term first; the verified checker `pfCheck` with cofactors from `mkCofs`)
     ilt.model <s> <T0> <w> <g> <v> <g2> <u> <causal 0|1> <T> ; <Q coeffs> ; <r p o>*
         -> <L(model result)(s)> <guarded 0|1> <unilateral-part-empty 0|1>
+    ilt.deriv <env> <zic 0|1> <n> ; <g items>                  -> L(derivEntry zic n g)(s)      (s**n * V(s), concrete g for v)
+    ilt.conv <env> <causal 0|1> ; <Q coeffs> ; <r p o>* ; <g items>   -> <t|inf> L(conv (ilt F) g)(s)   (F(s) * V(s))
+    res.sub ; <B coeffs> ; <pole mult>*        -> hyp=<bool> | <r p o>*    (model of Ratfun._find_residues_sub, theorem find_residues_sub_sound)
+    res.ec ; <B coeffs> ; <pole mult>* ; <r>*  -> true | false            (cofactors by the rule of _find_residues_ec, checked by pfCheck)
+    ilt.ds <s> <T0> <w> <g> <v> <g2> <u> <causal 0|1> <T> ; <ncoeffs highest first> ; <dcoeffs> ; <omega1>
+        -> as ilt.model, for `do_damped_sin` | fallback (its guards send the input to the partial-fraction route) | bad-omega1
+    asm.causal <name>=<0|1>*   -> true | false   (Assumptions.merge in keyword order, then `causal` present?)
     rat.eval <s> <T0> <w> <g> <v> <g2> <u> <T> ; <B coeffs> ; <A coeffs>           -> E(-sT)·B(s)/A(s)
     sig.val0 ; <items>      -> f(0+)        sig.valinf ; <items>   -> sum of the step coefficients
     sig.causal ; <items>    -> true | false   (all delays >= 0)
@@ -13,6 +20,7 @@
 import Lcapy.Model.CRat
 import Lcapy.Model.ExpPoly
 import Lcapy.Model.ILT
+import Lcapy.Model.ResidueSub
 import Lcapy.Driver.C09
 namespace Lcapy.Driver.C10
 open Lcapy Lcapy.Laplace Lcapy.Driver.C09
@@ -62,7 +70,7 @@ def handle (toks : List String) : Option String :=
           | some ep, some T, some Q, some R =>
             let E := mkE ep
             let isCausal := causal = "1"
-            let c := iltQ T 0 Q
+            let c := iltQsrc T Q
             let u := ratfunLoop GQ.J GQ.conj T (R.length + 1) R
             let part := termModel isCausal (T ≠ 0) c u
             let res := makeModel isCausal [part]
@@ -71,6 +79,92 @@ def handle (toks : List String) : Option String :=
           | _, _, _, _ => "bad-op"
         | _ => "bad-op"
       | _ => "bad-op"
+  | "ilt.deriv" :: rest => some <| Id.run do
+      -- <env> <zic 0|1> <n> ; <items of the concrete signal g put for v(t)>   ->  L(derivEntry zic n g)(s)
+      match splitOn ";" rest with
+      | [envT, gT] =>
+        match envT.reverse with
+        | nT :: zic :: envR =>
+          match parseEPar envR.reverse, nT.toNat?, parseItems gT [] [] with
+          | some ep, some n, some (_, g) =>
+            toString (L (mkE ep) (derivEntry (zic = "1") n g) (GQ.ofRat ep.s))
+          | _, _, _ => "bad-op"
+        | _ => "bad-op"
+      | _ => "bad-op"
+  | "ilt.conv" :: rest => some <| Id.run do
+      -- <env> <causal 0|1> ; <Q coeffs> ; <r p o>* ; <items of g>   ->  <upper limit t|inf> <L(conv (ilt F) g)(s)>
+      match splitOn ";" rest with
+      | [envT, qT, rT, gT] =>
+        match envT.reverse with
+        | causal :: envR =>
+          match parseEPar envR.reverse, parseList qT, parseRPO rT, parseItems gT [] [] with
+          | some ep, some Q, some R, some (_, g) =>
+            let f := iltQsrc 0 Q ++ ratfunLoop GQ.J GQ.conj 0 (R.length + 1) R
+            let up := match convUpper (causal = "1") with | .t => "t" | .inf => "inf"
+            s!"{up} {L (mkE ep) (convEntry f g) (GQ.ofRat ep.s)}"
+          | _, _, _, _ => "bad-op"
+        | _ => "bad-op"
+      | _ => "bad-op"
+  | "res.sub" :: rest => some <| Id.run do
+      -- ; <B coeffs (already divided by the leading coefficient of A)> ; <pole mult>*
+      --   -> hyp=<distinct poles and deg B < sum of multiplicities> | r p o r p o ...   (model of _find_residues_sub)
+      match splitOn ";" rest with
+      | [_, bT, pT] =>
+        match parseList bT, parsePoles pT with
+        | some B, some poles =>
+          let hyp := (poles.map Prod.fst).Nodup && decide (B.length ≤ (poles.map Prod.snd).sum)
+          let R := findResiduesSub B poles
+          s!"hyp={hyp} | " ++ " ".intercalate (R.map (fun (r, p, o) => s!"{r} {p} {o}"))
+        | _, _ => "bad-op"
+      | _ => "bad-op"
+  | "res.ec" :: rest => some <| Id.run do
+      -- ; <B coeffs> ; <pole mult>* ; <r>*      the solution of the equating-coefficients system, entry by entry:
+      --   cofactors built by the source's rule (`ecCofactors`), every claim verified by the checker `pfCheck`
+      match splitOn ";" rest with
+      | [_, bT, pT, rT] =>
+        match parseList bT, parsePoles pT, parseList rT with
+        | some B, some poles, some rs =>
+          let entries := entriesOf poles
+          if entries.length ≠ rs.length then "length-mismatch" else
+          let R := (rs.zip entries).map (fun (r, (p, o)) => (r, p, o))
+          toString (pfCheck B (factoredDenominator poles) [] R (ecCofactors entries))
+        | _, _, _ => "bad-op"
+      | _ => "bad-op"
+  | "ilt.ds" :: rest => some <| Id.run do
+      -- <env> <causal 0|1> <T> ; <ncoeffs, highest power first> ; <dcoeffs> ; <omega1>
+      match splitOn ";" rest with
+      | [envT, nT, dT, [oT]] =>
+        match envT.reverse with
+        | tT :: causal :: envR =>
+          match parseEPar envR.reverse, parseGQ tT, parseList nT, parseList dT, parseGQ oT with
+          | some ep, some T, some nc, some dc, some om =>
+            -- the square roots: any (sq1, sq2) with sq1 ≠ 0 and (sq1 sq2)² = d2 − (d1/2)² (theorem damped_sin_value*);
+            -- here sq1 = 1, sq2 = ω1, and the condition on ω1 is checked, not assumed
+            match dc with
+            | [a2, a1, a0] =>
+              let two : GQ := 1 + 1
+              if (om * om == a0 / a2 - (a1 / a2 / two) * (a1 / a2 / two)) = false then "bad-omega1" else
+              match dampedSin GQ.J nc dc 1 om T with
+              | none => "fallback"
+              | some (c, u) =>
+                let E := mkE ep
+                let isCausal := causal = "1"
+                let part := termModel isCausal (T ≠ 0) c u
+                let res := makeModel isCausal [part]
+                let v := L E (res.cpart ++ res.upart) (GQ.ofRat ep.s)
+                s!"{v} {if res.guarded then 1 else 0} {if res.upart.isEmpty then 1 else 0}"
+            | _ => "fallback"
+          | _, _, _, _, _ => "bad-op"
+        | _ => "bad-op"
+      | _ => "bad-op"
+  | "asm.causal" :: rest =>
+      -- <name>=<0|1> ... in keyword order  ->  true | false   (`kwargs.get('causal')` after Assumptions.merge)
+      some <| match rest.mapM (fun t => match t.splitOn "=" with
+                | [a, "1"] => some (a, true)
+                | [a, "0"] => some (a, false)
+                | _ => none) with
+        | some kw => toString (effectiveCausal kw)
+        | none => "bad-op"
   | "rat.eval" :: rest => some <| Id.run do
       match splitOn ";" rest with
       | [envT, bT, aT] =>
